@@ -65,6 +65,17 @@ def _fixture_specs(rng, tier):
                 lib = rng.choice(["ufoLib2", "defcon"])
                 specs.append({"source": {"kind": "ufo-path", "path": u}, "lib": lib,
                               "history": [{"fn": fn, "kwargs": o}, {"fn": fn, "kwargs": o}]})
+    def _loadable(d):
+        # some fixture documents name sources that are not in the repository
+        from fontTools.designspaceLib import DesignSpaceDocument
+
+        try:
+            doc = DesignSpaceDocument.fromfile(d)
+            return all(s.path and os.path.exists(s.path) for s in doc.sources)
+        except Exception:  # noqa
+            return False
+
+    dss = [d for d in dss if _loadable(d)]
     for d in dss:
         for fn in (DS_FNS if tier != "quick" else rng.sample(DS_FNS, 3)):
             lib = rng.choice(["ufoLib2", "defcon"])
